@@ -222,6 +222,17 @@ claim('C25',
       'variants and the origin-state fold-down are not covered. One defect found and fixed (2-fold rotation about dx).',
       'DESIGN.md 3/C25')
 
+claim('C13',
+      'Bounded symbolic verification (HDF5 half): the real addhdf5/loadhdf5 of VacancyMediated and their helpers (vTKdict2arrays/'
+      'arrays2vTKdict, doublelist2flatlistindex/flatlistindex2doublelist, PSlist2array/array2PSlist), of Taylor3D/2D, run against an '
+      'in-memory store with the h5py contract: cache dictionaries holding ARBITRARY symbolic arrays under symbolic keys come back entry by '
+      'entry; a reloaded calculator (cache populated or empty) gives term-identical Lij for the same and for a further symbolic input '
+      '(uninterpreted abstraction as in C14), equal tags; Taylor coefficients and evaluations identical; star sets, vector star sets and '
+      'the Green-function calculator compared attribute by attribute.',
+      'HDF5 modelled by a stub (replays use real h5py, core driver); YAML half of the property NOT covered; calculators enumerated; '
+      'vacancy/solute site energies fixed to zero in the Lij round trip.',
+      'DESIGN.md 3/C13, 2.3')
+
 na('C01', 'exact oracle is an infinite-state pair Markov chain reached through Brillouin-zone quadrature, LAPACK and hyp1f1/expi; '
           'agreement only to integration accuracy: no algebraic statement a solver can decide (DESIGN 5)')
 na('C06', 'identities hold only for the true lattice Green function of the omega0 network (numerical k-space integration); '
